@@ -82,11 +82,27 @@ def setup():
     _T["state"] = typhon_state()
 
 
+DIMNAMES = [("scnline", "scnpos"), ("scnline", "scnpos"), ("scanline", "pixel"),
+            ("y", "x"), ("along_track", "across_track")]
+
+
 def gen_dataset(tape, did, force_big=False):
     d = {"id": did}
     d["layout"] = tape.pick(["linear", "linear", "grid"], "layout")
     big = force_big or tape.flag("big", 1, 300)
     d["big"] = big
+    if big and tape.flag("biggrid", 1, 3):
+        # a large swath: the pre-binned path with gridded input
+        d["layout"] = "grid"
+        d["big"] = False              # materialised by the grid branch
+        d["biggrid"] = True
+        d["lines"], d["pos"] = 34 + tape.choice(8, "blines"), 31 + tape.choice(3, "bpos")
+        d["c"] = 0
+        d["times"] = sorted(tape.choice(7200, "t") for _ in range(d["lines"]))
+        d["step"] = [0.002, 0.02][tape.choice(2, "step")]
+        d["nan"] = []
+        d["dims"] = tape.choice(len(DIMNAMES), "dims")
+        return d
     if big:
         d["n"] = 1001 + tape.choice(300, "nbig")
         d["layout"] = "linear"
@@ -114,6 +130,8 @@ def gen_dataset(tape, did, force_big=False):
         d["step"] = [0.002, 0.02, 0.2][tape.choice(3, "step")]
         d["nan"] = [(tape.choice(lines, "nl"), tape.choice(pos, "np"))
                     for _ in range(tape.choice(2, "nnan"))]
+        # names of the two swath dimensions (their alphabetical order differs)
+        d["dims"] = tape.choice(len(DIMNAMES), "dims")
     return d
 
 
@@ -161,11 +179,12 @@ def materialise(d, perturb=0.0):
         lat[i, j] = np.nan
     ids = (np.arange(L * P) + 100000 * (d["id"] + 1)).reshape(L, P)
     t = np.array([np.datetime64(BASE + timedelta(seconds=s), "ns") for s in d["times"]])
-    ds = xr.Dataset({"time": ("scnline", t), "lat": (("scnline", "scnpos"), lat),
-                     "lon": (("scnline", "scnpos"), lon),
-                     "id": (("scnline", "scnpos"), ids)},
-                    coords={"scnline": np.arange(L) * 3 + 11,     # unique labels
-                            "scnpos": np.arange(P) + 1})
+    dl, dp = DIMNAMES[d.get("dims", 0)]
+    ds = xr.Dataset({"time": (dl, t), "lat": ((dl, dp), lat),
+                     "lon": ((dl, dp), lon),
+                     "id": ((dl, dp), ids)},
+                    coords={dl: np.arange(L) * 3 + 11,     # unique labels
+                            dp: np.arange(P) + 1})
     secs = np.repeat(np.array(d["times"], float), P)
     return ds, {"t": secs, "lat": lat.ravel(), "lon": lon.ravel(), "id": ids.ravel()}
 
@@ -203,6 +222,7 @@ def gen_workload(tape):
         c["magnitude_factor"] = tape.pick([10, 1, 2, 100], "mf")
         c["leaf_size"] = tape.pick([40, 1, 3], "leaf")
         c["named"] = tape.flag("named", 1, 2)
+        c["other_between"] = tape.flag("other_between", 1, 4)
         # spatial collocations only (max_interval=None; start/end do not apply)
         c["spatial_only"] = tape.flag("spatial_only", 1, 6)
         if bigrun:
@@ -412,6 +432,15 @@ def run_one(tape, only=None):
                     f"max_interval={mi}s, window={c['window']}, mf={c['magnitude_factor']}, "
                     f"perm={w['perm']}, history={history}")
             history.append(f"{mode}:{pi}x{si}")
+            if c.get("other_between"):
+                # another Collocator object works on data of the same size in
+                # between: objects must be independent of each other
+                probe("other_collocator_in_between")
+                try:
+                    _T["Collocator"]().collocate(a1, a2, **kw)
+                except Exception:  # noqa: not the object under test
+                    pass
+                plan.take_fired()
             try:
                 out = coll.collocate(a1, a2, **kw)
             except Exception as e:  # noqa
